@@ -3,10 +3,11 @@
 (* Constants (set by props/c01.py in a generated cfg): Fam, Full, Seed.                  *)
 EXTENDS PbfFormatSpace, IOUtils, Json, SequencesExt
 CONSTANTS Fam, Full, Seed
-Cases == Family(Fam, Full, Seed)
-ASSUME \A c \in Cases : ValidFile(c.file)          \* the space stays inside C01's quantifier
-ASSUME ndJsonSerialize(IOEnv.OUT, SetToSeq(Cases))
-ASSUME PrintT(<<"GENERATED", Fam, Cardinality(Cases)>>)
+ShapeSeq == SetToSeq(FamShapes(Fam, Full, Seed))
+Cases == [i \in 1 .. Len(ShapeSeq) |-> FamBuild(Fam, Full, Seed, ShapeSeq[i])]      \* one file per shape
+ASSUME \A i \in 1 .. Len(Cases) : ValidFile(Cases[i].file)          \* the space stays inside C01's quantifier
+ASSUME ndJsonSerialize(IOEnv.OUT, Cases)
+ASSUME PrintT(<<"GENERATED", Fam, Len(Cases)>>)
 VARIABLE v
 GInit == v = 0
 GNext == UNCHANGED v
